@@ -232,6 +232,11 @@ func (m *BaseUndoLogManager) FlushUndoLog(tranCtx *types.TransactionContext, con
 	if err != nil {
 		return err
 	}
+	// the rollback path decompresses by the compressor type recorded in the context, so apply it here
+	rollbackInfo, err = compressor.CompressorType(parseContext[compressorTypeKey]).GetCompressor().Compress(rollbackInfo)
+	if err != nil {
+		return err
+	}
 
 	return m.InsertUndoLog(undo.UndologRecord{
 		BranchID:     tranCtx.BranchID,
